@@ -14,6 +14,8 @@ N = {'quick': 250, 'thorough': 3000}
 def gen_case(rng):
     mg, xg, ml = rng.choice([(1, 4, 4), (2, 5, 3), (3, 6, 3), (2, 4, 5)])
     spec = rulesets.gen_spec(rng, min_groups=mg, max_groups=xg, max_len=ml, pool=rng.choice(['dyadic', 'dyadic3', 'equal', 'decimal', 'thirds', 'counts', 'tiny', 'random']))
+    if spec.get('omen') and len(spec['omen']['probs']) >= 2 and rng.random() < 0.5:
+        spec['omen']['probs'][1][1] = spec['omen']['probs'][0][1]      # two OMEN levels tie
     flags = {'skip_brute': rng.random() < 0.3, 'all_lower': rng.random() < 0.3, 'folder': 'Prince' if rng.random() < 0.1 else 'Grammar'}
     if flags['folder'] == 'Prince':
         gstream.add_prince(rng, spec)
@@ -86,11 +88,7 @@ def run(run, rng):
                        'identity of a pre-terminal = (label sequence with C inserted, index vector); duplicate base structures count separately']
     for i in range(N[run.tier]):
         case = gen_case(rng)
-        try:
-            with timebox(60):
-                check_case(run, case)
-        except CaseTimeout:
-            run.inconc('case watchdog')
+        run.guard(case, check_case, seconds=60)
 
 def replay(run, case):
     check_case(run, case['case'])
